@@ -5,7 +5,7 @@
    answers, what the caller got); the implementation-shaped prediction of
    Walk.tla/WalkImpl.tla is advanced alongside and compared -> `drift`, which is
    reported but never a violation. *)
-EXTENDS WalkImpl, TraceBase
+EXTENDS WalkImpl, TraceBase, AgentOpsErr
 
 VARIABLES tid, l, st, verdict
 vars == <<tid, l, st, verdict>>
@@ -18,6 +18,7 @@ Ag == IF IsFaulty THEN FaultyAgent(FMap) ELSE Conformant(ToSet(Sc.db))
 Db == IF IsFaulty THEN {} ELSE ToSet(Sc.db)
 Roots == Sc.roots
 Lenient == Has(Sc, "errors") /\ Sc.errors = "warn"
+ErrInjected == Has(Sc, "err")
 
 St0 == [yielded |-> <<>>, served |-> {}, req |-> [oids |-> <<>>, kind |-> "none", maxrep |-> 0], nreq |-> 0,
         asked |-> {}, revealed |-> {}, gnFault |-> FALSE, nonAdv |-> FALSE, faultAt |-> 0,
@@ -65,7 +66,7 @@ OnResp(s, e) ==
                        !.predEnd = stop \/ unf = <<>>,
                        !.predY = @ \o ys,
                        !.contFrom = IF stop THEN @ ELSE unf],
-      cl |-> << <<"MACHINERY_agent_answer_conformant", conf>> >>]
+      cl |-> << <<"MACHINERY_agent_answer_conformant", conf \/ e.es # 0>> >>]
 
 OnYield(s, e) ==
   LET o == e.oid ys == s.yielded IN
@@ -81,7 +82,10 @@ OnEnd(s, e) ==
       dr == IF isWalk /\ e.outcome = "done" /\ s.yielded # s.predY THEN 1 ELSE 0
            + IF (e.outcome = "done") # (s.predEnd /\ (s.faultAt = 0 /\ ~(\E i \in DOMAIN s.pred : TRUE))) THEN 0 ELSE 0
   IN [st |-> [s EXCEPT !.drift = @ + dr],
-      cl |-> IF ~IsFaulty
+      cl |-> IF ErrInjected /\ \E i \in DOMAIN Ev : Ev[i].e = "resp" /\ Ev[i].es # 0
+             THEN \* C08: a walk-style operation propagates the agent's error (documented exception: noSuchName ends the walk)
+                  << <<"error_not_propagated", IF Sc.err.es = 2 THEN e.outcome \in {"done", "NoSuchOID"} ELSE e.outcome = ErrClass(Sc.err.es)>> >>
+             ELSE IF ~IsFaulty
              THEN << <<"request_budget_exceeded", e.outcome # "BUDGET">>,
                      <<"unexpected_exception", e.outcome = "done">>,
                      <<"missing_instance", ~isWalk \/ StrictSet(Db, Roots) \subseteq ys>>,
